@@ -161,6 +161,7 @@ impl<'a, T> Clone for TapDanceEagerState<'a, T> {
 //@ item keyberon/src/layout.rs struct OneShotState
 //@@ no-derives
 //@@ keep-vis
+//@@ add-field pub verif_presses: Ghost<Seq<OneShotHandlePressKey>>
 //@ item keyberon/src/layout.rs enum OneShotHandlePressKey
 //@@ keep-vis
 //@ item keyberon/src/layout.rs type OneShotCoords
@@ -173,6 +174,8 @@ impl OneShotState {
     #[verifier::external_body]
     fn handle_press(&mut self, key: OneShotHandlePressKey) -> (r: OneShotCoords)
         ensures
+            // ghost: that it was told, and what
+            final(self).verif_presses@ == old(self).verif_presses@.push(key),
             final(self).keys@ == old(self).keys@,
             final(self).end_config == old(self).end_config,
             final(self).pause_input_processing_delay == old(self).pause_input_processing_delay,
@@ -628,6 +631,10 @@ fn do_action_one_shot(&mut self, action: &'a Action<'a, T>, coord: KCoord, delay
             // with this key's value and its end variant governs; nothing is released
             &&& mid.keys@.len() < 16 ==> {
                 &&& final(self).oneshot.keys@ == mid.keys@.push(coord)
+                // the one-shot logic is told about EVERY press of a one-shot key, whatever its end
+                // variant: that is what forgets the deferred release of a key that is pressed again
+                // and held ("a held one-shot key acts as the plain key")
+                &&& final(self).oneshot.verif_presses@ == mid.verif_presses@.push(OneShotHandlePressKey::OneShotKey(coord))
                 &&& final(self).oneshot.timeout == oneshot.timeout
                 &&& final(self).oneshot.end_config == oneshot.end_config
                 &&& final(self).verif_events@ == old(self).verif_events@
